@@ -11,6 +11,8 @@
    two concurrent scrapers) are executed on the real prometheus.NewServiceMetrics collectors under the stubbed clock.
 3. code -> spec: the recorded traces (what each scrape really showed) are validated by TLC (TunnelTimeTrace): property
    layer = verdict, mechanism layer = drift.
+3b. concurrent stage (no hook): workers + concurrent Registry.Gather scrapes, burst rounds of simultaneous FIRST opens of
+   one (ip,key); the serialised trace with its quiescent scrapes is validated by TLC against the ideal account.
 4. a scrape that panicked in-process is re-run in a child `go test` process through Registry.Gather to show that
    nothing recovers it (process exit).
 """
@@ -19,7 +21,12 @@ import vlib
 from checks import tt_common as T
 
 ASSUME = [
-    "time is the stubbed package variable prometheus.now driven by the model's integer clock (1 unit = 1 s)",
+    "time is the stubbed package variable prometheus.now driven by the model's integer clock; one model unit is 700, 1000, "
+    "250 or 1300 ms on the code side (round robin per behaviour), values are compared in thousandths of a unit, so "
+    "sub-second periods between reports are accounted for",
+    "concurrent stage: the stub clock advances only at barriers, so every serialisation of a phase that respects program "
+    "order has the same ideal account; burst rounds make all workers open the first tunnels of one idle (ip,key) at once "
+    "while a database lookup takes 1 ms",
     "a scrape is the direct call of serviceMetrics.Collect in a harness goroutine (what Registry.Gather does in its "
     "collector goroutines); the end-of-history scrape and the child-process run go through Registry.Gather itself",
     "the location label an IP is accounted under is the one the C20 decision table gives (fake database, loopback = XL)",
@@ -85,6 +92,23 @@ def replay_family(ctx, name, behs, mode, *, db="alt"):
     ctx.cov["distinct_nontrivial"] += sum(1 for t in traces if nontrivial(t))
     ctx.cov.setdefault("trace_events", 0)
     ctx.cov["trace_events"] += res["events"]
+    return traces, res
+
+
+def concurrent_stage(ctx, shape, tag="c17conc"):
+    rc, out, rows = T.run_concurrent(ctx, shape, tag=tag)
+    if vlib.compile_failed(out):
+        raise vlib.Inconclusive("metrics concurrent overlay does not compile against the working tree:\n" + out[-3000:])
+    if rc != 0 or "HARNESS-ERROR" in out or not rows or rows[-1].get("ev") != "Done":
+        raise vlib.Inconclusive("metrics concurrent driver failed (rc=%d):\n%s" % (rc, out[-2500:]))
+    _, traces = T.split_traces(rows)
+    res = T.validate(ctx, traces, "underlock", "concurrent first opens %s" % json.dumps(shape, sort_keys=True), report=False,
+                     timeout=1800)
+    ctx.cov["traces_validated_against_impl"] += res["ntraces"]
+    ctx.cov["evaluations"] += rows[-1].get("bursts", 0) + shape["phases"]
+    ctx.cov["distinct_nontrivial"] += rows[-1].get("bursts", 0)
+    ctx.cov["concurrent_stage"] = {"shape": shape, "events": res["events"], "burst_rounds": rows[-1].get("bursts"),
+                                   "concurrent_gathers": rows[-1].get("gathers"), "conns": rows[-1].get("conns")}
     return traces, res
 
 
@@ -173,6 +197,14 @@ def run(ctx):
             ctx.sample({"recorded_trace_head": [r for r in traces[0] if r.get("ev") != "Expo"][:10]})
     selftest(ctx, good, mode)
 
+    # concurrent stage: workers + concurrent scrapes; burst rounds in which all workers open the FIRST tunnels of one idle
+    # (ip,key) at the same instant while a database lookup takes a millisecond.  The totals at every quiescent scrape must
+    # equal the ideal account (TLC on the serialised trace).
+    shape = dict(g=8, s=2, phases=3 if quick else 10, ops=40, seed=ctx.seed, nk=3, unit_ms=700)
+    ctraces, cres = concurrent_stage(ctx, shape)
+    for kind, tn, row in cres["violations"]:
+        all_viol.append((kind, ctraces[tn], row, {"concurrent_shape": shape}, "concurrent-first-opens"))
+
     if crash_beh and not any(f == "model-finding" for *_, f in all_viol):
         raise vlib.Inconclusive("model/code divergence: the as-is model's negative increment was not reproduced by the real "
                                 "collectors on schedule %s" % json.dumps(crash_beh))
@@ -188,7 +220,9 @@ def run(ctx):
         if kind == "negative-increment":
             extra = child_confirm(ctx, beh)
             ctx.notes.append(extra)
-        upto = trace[:trace.index(row) + 1]
+        upto = trace[:T.row_index(trace, row) + 1]
+        if fam == "concurrent-first-opens":
+            upto = upto[:1] + [{"ev": "...", "skipped": max(0, len(upto) - 61)}] + upto[-60:] if len(upto) > 61 else upto
         ctx.cov.setdefault("violating_traces", {})[kind] = len(vs)
         ctx.violation(T.signature(kind),
                       "tunnel time: %s; schedule (%s, clock read %s): %s; observed: %s; %d recorded traces show this. %s" % (
@@ -208,6 +242,13 @@ def replay(ctx, path):
     d = json.load(open(path))
     rp = d["replay"]
     beh = rp.get("behaviour")
+    if isinstance(beh, dict) and beh.get("concurrent_shape"):
+        traces, res = concurrent_stage(ctx, beh["concurrent_shape"], tag="replay")
+        for kind, tn, row in res["violations"][:1]:
+            T.report_violation(ctx, kind, traces[tn][:1] + traces[tn][max(1, T.row_index(traces[tn], row) - 60):T.row_index(traces[tn], row) + 1],
+                               row, "replay (concurrent first opens)", beh)
+        print("replayed concurrent stage: %d violation(s)" % len(res["violations"]))
+        return
     if not beh:
         raise vlib.Inconclusive("replay file has no behaviour")
     rc, out, rows = T.run_overlay(ctx, [beh], db="alt", tag="replay")
